@@ -932,6 +932,75 @@ theorem Roots.rebuild_rel {P : Int → Int → Prop} (r : Roots) (hn : r ≠ .no
 
 /-! ### `_load_json`, `load_order=False` -/
 
+/-! ### the `try` block of `_load_json` on its successful run -/
+
+theorem makeNodesE_ok (lo : Bool) (vat : List (Nat × String)) :
+    ∀ (ls : List JLine) (c : List (Nat × Int)) (m : Mgr) (c' : List (Nat × Int)) (m' : Mgr),
+      makeNodes lo vat ls c m = (.ok c', m') → makeNodesE lo vat ls c m = (.ok (), c', m') := by
+  intro ls
+  induction ls with
+  | nil =>
+    intro c m c' m' h
+    simp only [makeNodes, pure, M.pure', Prod.mk.injEq, Except.ok.injEq] at h
+    obtain ⟨rfl, rfl⟩ := h
+    rfl
+  | cons ln rest ih =>
+    intro c m c' m' h
+    rw [makeNodes] at h
+    obtain ⟨c1, m1, h1, h2⟩ := M.dmp_bind_ok h
+    rw [makeNodesE, h1]
+    exact ih c1 m1 c' m' h2
+
+theorem jsonRoots_ok (f : JsonFile) (hn : f.roots ≠ .none) (cache : List (Nat × Int)) (m m' : Mgr)
+    (us : List Int) (h : rootsFromInts cache f.roots.values m = (.ok us, m')) :
+    jsonRoots f cache m = (.ok us, m') := by
+  unfold jsonRoots
+  have hks : (match f.roots with
+      | .none => (M.throw .key : M (List Int))
+      | r => pure r.values) m = (.ok f.roots.values, m) := by
+    cases hr : f.roots with
+    | none => exact absurd hr hn
+    | list l => rfl
+    | dict d => rfl
+  exact (M.bind_eq_ok hks).trans h
+
+theorem jsonHeader_false (f : JsonFile) (m m1 : Mgr)
+    (h : declare (f.levelOfVar.map (·.1)) m = (.ok (), m1)) : jsonHeader f false m = (.ok (), m1) := by
+  unfold jsonHeader
+  refine (M.bind_eq_ok h).trans ?_
+  rfl
+
+theorem jsonHeader_true (f : JsonFile) (m m1 m2 : Mgr)
+    (h : declare (f.levelOfVar.map (·.1)) m = (.ok (), m1))
+    (h2 : reorder (some (f.levelOfVar.map fun (x : String × Nat) => (x.1, (x.2 : Int)))) m1 = (.ok (), m2)) :
+    jsonHeader f true m = (.ok (), m2) := by
+  unfold jsonHeader
+  refine (M.bind_eq_ok h).trans ?_
+  simp only [if_true]
+  exact h2
+
+theorem jsonTry_ok (f : JsonFile) (lo : Bool) (hn : f.roots ≠ .none) (m m1 m2 m3 : Mgr)
+    (cache : List (Nat × Int)) (us : List Int)
+    (hh : jsonHeader f lo m = (.ok (), m1))
+    (hm : makeNodes lo (f.levelOfVar.foldl (fun acc (x : String × Nat) => (x.2, x.1) :: acc) []) f.nodes [] m1
+      = (.ok cache, m2))
+    (hr : rootsFromInts cache f.roots.values m2 = (.ok us, m3)) :
+    jsonTry f lo m = (.ok us, cache, m3) := by
+  unfold jsonTry
+  simp only [hh, makeNodesE_ok lo _ _ _ _ _ _ hm, jsonRoots_ok f hn cache m2 m3 us hr]
+
+theorem loadJson_false_eq (f : JsonFile) (m : Mgr) :
+    loadJson f false m = jsonFinish f false (jsonTry f false m) := by
+  unfold loadJson
+  rfl
+
+theorem loadJson_true_eq (f : JsonFile) (m : Mgr) :
+    loadJson f true m = jsonFinish f true (jsonTry f true { m with lastLen := none }) := by
+  unfold loadJson
+  simp only [if_true]
+  refine (M.bind_eq_ok (show configure (some false) m = (.ok m.lastLen.isSome, { m with lastLen := none }) from ?_)).trans rfl
+  simp [configure, bind, M.bind', M.get, M.set, pure, M.pure']
+
 /-- what `_copy.load_json` needs of a JSON content besides `PickleWF f.toPickle`: children
 come first, the roots are a container, every node line is the line its id resolves to -/
 structure JsonWF (f : JsonFile) : Prop where
@@ -1076,14 +1145,10 @@ theorem loadJson_false_spec (f : JsonFile) (hf : JsonWF f) (tgt : Mgr) (e : Nat 
     obtain ⟨v, hv1, hv2⟩ := hlmfacts _ _ hij
     exact ⟨v, hnames v i hv1, by rw [K12.frame.l2v]; exact (hO.inv v j).mp hv2⟩
   refine ⟨f.roots.rebuild us, { m2 with ref := r5 }, ?_, by rw [hvals]; exact g5, pn2.congr rfl rfl, ?_, ?_⟩
-  · unfold loadJson
-    simp only [Bool.false_eq_true, if_false]
-    refine (M.bind_eq_ok ed).trans ?_
-    refine (M.bind_eq_ok emk).trans ?_
-    have hksm : (pure f.roots.values : M (List Int)) m2 = (.ok f.roots.values, m2) := rfl
-    refine (M.bind_eq_ok hksm).trans ?_
-    refine (M.bind_eq_ok er).trans ?_
-    simp only [erl]
+  · rw [loadJson_false_eq, jsonTry_ok f false hsome tgt m1 m2 { m2 with ref := r3 } added us
+      (jsonHeader_false f tgt m1 ed) emk er]
+    unfold jsonFinish
+    simp only [erl, Bool.false_eq_true, if_false]
     have hfin : (liftE (Except.ok ()) >>= fun _ => dmpAssertConsistent >>= fun _ => (pure () : M Unit))
         { m2 with ref := r4 } = (.ok (), { m2 with ref := r4 }) := by
       refine (M.bind_eq_ok (show liftE (Except.ok ()) { m2 with ref := r4 } = (.ok (), { m2 with ref := r4 }) from rfl)).trans ?_
@@ -1210,10 +1275,11 @@ theorem pickleAutoref_counts (ext : Nat → Nat) (f : PickleFile) (levels : Bool
     (hwf : PickleWF f) (hr : RootsResolvable f)
     (lm : List (Nat × Nat)) (m1 : Mgr)
     (hv : loadVars levels f.vars.length f.vars [] m = (.ok lm, m1))
-    (hg : Contig m1.tbl) :
+    (hg : Contig m1.tbl)
+    (hperm : levels = true → levelsPermutation f.vars = true) :
     ∃ roots' m', loadPickleAutoref f levels m = (.ok roots', m') ∧ Inv m' ∧
       RefExact m' (extAdd ext (roots'.values.map Int.natAbs)) ∧ LoadedFrom f m'.tbl roots' := by
-  obtain ⟨roots', m2, e2, I2, R2, L2⟩ := pickle_load_counts ext f levels m hI hx hb hc hwf hr lm m1 hv hg
+  obtain ⟨roots', m2, e2, I2, R2, L2⟩ := pickle_load_counts ext f levels m hI hx hb hc hwf hr lm m1 hv hg hperm
   have hmem : ∀ u ∈ roots'.values, m2.tbl.Mem u := by
     intro u hu
     obtain ⟨_, h, _⟩ := RootsRel.right_mem L2 u hu
